@@ -23,6 +23,8 @@ import (
 	"encoding/json"
 	"io"
 
+	"github.com/pkg/errors"
+
 	rspb "helm.sh/helm/v4/pkg/release/v1"
 )
 
@@ -82,6 +84,11 @@ func decodeRelease(data string) (*rspb.Release, error) {
 	// unmarshal release object bytes
 	if err := json.Unmarshal(b, &rls); err != nil {
 		return nil, err
+	}
+	// Every operation on a release reads its status: a record without the info
+	// section is not a usable release.
+	if rls.Info == nil {
+		return nil, errors.New("release record has no info")
 	}
 	// A null entry in the list of hooks cannot be run and would be dereferenced by
 	// every operation that goes through the hooks of the release: drop it.
